@@ -1203,6 +1203,58 @@ def rule_G(ctx):
                 found.setdefault(('operator objects', nm), ('applying the operator object directly gives the values of the expression',
                                                             {'call': 'operate(Operator.%s, %r, %r, "out")' % (nm, l, kk), 'stored': [None if isn(v) else v for v in got] if isinstance(got, list) else got,
                                                              'expected': [None if isn(v) else v for v in want]}))
+    # F8 a piece cut out of the track (extractSpanTime: observations 1 ... N-2) is a track of its own: an assignment evaluated on the piece, then
+    #    expressions on the track it was cut from (and the other way round)
+    if 'extractSpanTime' in ctx.prog.cls(TRACKQ).methods:
+        for first_on in ('piece', 'track'):
+            counts['derived tracks'] = counts.get('derived tracks', 0) + 1
+            t = mk()
+            hist = []
+            try:
+                P0 = t.fields['_Track__POINTS']
+                piece = t.call('extractSpanTime', P0[1].fields['timestamp'], P0[N - 2].fields['timestamp'])
+                sub = slice(1, N - 1)
+                steps = [('piece', 'c=rate*b+1'), ('track', 'rate+b'), ('track', 'd=rate-b'), ('piece', 'rate-b'), ('piece', 'rate=b*2'), ('track', 'rate*2')]
+                if first_on == 'track':
+                    steps = [('track', 'c=rate*b+1'), ('piece', 'rate+b'), ('piece', 'd=rate-b'), ('track', 'rate-b'), ('track', 'rate=b*2'), ('piece', 'rate*2')]
+                envs = {'track': {k_: list(v_) for k_, v_ in FEATS.items()}, 'piece': {k_: list(v_[sub]) for k_, v_ in FEATS.items()}}
+                bad = None
+                for who, text in steps:
+                    obj = piece if who == 'piece' else t
+                    e_ = envs[who]
+                    tgt, _, rhs = text.rpartition('=')
+                    l_, o_, r_ = (rhs[:-2], rhs[-2], rhs[-1]) if rhs[-1].isdigit() else rhs.partition('*' if '*' in rhs else ('+' if '+' in rhs else '-'))
+                    if rhs == 'rate*b+1':
+                        want = [x_ * y_ + 1 for x_, y_ in zip(e_['rate'], e_['b'])]
+                    else:
+                        rv = [float(r_)] * len(e_['b']) if r_.isdigit() else e_[r_]
+                        want = [{'+': x_ + y_, '-': x_ - y_, '*': x_ * y_}[o_] for x_, y_ in zip(e_[l_], rv)]
+                    got = obj.call('operate', text)
+                    hist.append('%s.operate(%r)' % (who, text))
+                    if tgt:
+                        e_[tgt] = list(want)
+                        got = obj.call('getAnalyticalFeature', tgt)
+                    if not same_list(got, want):
+                        bad = {'history': list(hist), 'returned' if not tgt else 'stored under %s' % tgt: [None if isn(v) else v for v in got] if isinstance(got, list) else repr(got), 'expected': want}
+                        break
+                    # every feature of both tracks reads what was last written to it
+                    for who2, obj2 in (('track', t), ('piece', piece)):
+                        for nm, vs in envs[who2].items():
+                            g2 = obj2.call('getAnalyticalFeature', nm)
+                            if not same_list(g2, vs):
+                                bad = {'history': list(hist), 'feature %s of the %s' % (nm, who2): [None if isn(v) else v for v in g2] if isinstance(g2, list) else repr(g2), 'expected': [None if isn(v) else v for v in vs]}
+                                break
+                        if bad:
+                            break
+                    if bad:
+                        break
+                if bad:
+                    found.setdefault(('derived tracks', first_on), ('a piece cut out of a track (extractSpanTime) and the track it was cut from evaluate and store expressions independently of each other',
+                                                                    dict(bad, piece='observations 1 ... %d' % (N - 2))))
+            except orders.Unsupported as ex:
+                raise shape_error('expressions on an extracted piece not interpretable: %s' % ex, fo.loc())
+            except (ZeroDivisionError, IndexError, KeyError, TypeError, AttributeError, ValueError, OverflowError, orders.Raised, RecursionError) as ex:
+                found.setdefault(('derived tracks', 'fails'), ('expressions on a piece cut out of a track are evaluated', {'history': hist, 'exception': '%s: %s' % (type(ex).__name__, str(ex)[:160])}))
     for (family, key), (desc, wit) in sorted(found.items()):
         ctx.violation('C02.G', fo, '%s: %s' % (family, desc), wit, node=fo.node, key='%s:%s' % (family, key))
     for family, n_ in sorted(counts.items()):
